@@ -44,9 +44,14 @@ func (s *Service) EstimateTxCommission(ctx context.Context, req *pb.EstimateTxCo
 		return nil, s.createError(status.New(codes.FailedPrecondition, "Not possible to pay commission"), transaction.EncodeError(code.NewCommissionCoinNotSufficient("", "")))
 	}
 
+	gasCoin := cState.Coins().GetCoin(decodedTx.GasCoin)
+	if gasCoin == nil {
+		return nil, s.createError(status.New(codes.NotFound, "Gas coin not found"), transaction.EncodeError(code.NewCoinNotExists("", decodedTx.GasCoin.String())))
+	}
+
 	commissionInBaseCoin := decodedTx.MulGasPrice(price)
 	commissionPoolSwapper := cState.Swap().GetSwapper(decodedTx.GasCoin, types.GetBaseCoinID())
-	commission, _, errResp := transaction.CalculateCommission(cState, commissionPoolSwapper, cState.Coins().GetCoin(decodedTx.GasCoin), commissionInBaseCoin)
+	commission, _, errResp := transaction.CalculateCommission(cState, commissionPoolSwapper, gasCoin, commissionInBaseCoin)
 	if errResp != nil {
 		return nil, s.createError(status.New(codes.FailedPrecondition, errResp.Log), errResp.Info)
 	}
